@@ -180,11 +180,14 @@ def run(ctx) -> None:
 
     def enum_call(f: FuncInfo) -> str:
         for c in db.calls_in(f):
-            if "enumerate_valid_expansion_states" in call_names(db, c, f):
-                return src(c)
+            if "enumerate_valid_expansion_states" in call_names(db, c, f) and len(c.args) == 2 and src(c.args[0]) == "flat_graph" and isinstance(c.args[1], ast.Name):
+                # second argument: the list of expandable nodes of the same flat graph
+                ds = [d for d in db.local_defs(f).get(c.args[1].id, []) if isinstance(d, ast.Assign)]
+                if ds and all(src(d.value) == "get_expandable_nodes(flat_graph)" for d in ds):
+                    return "enumerate_valid_expansion_states(flat_graph, get_expandable_nodes(flat_graph))"
         return ""
 
-    rep.add("C20.R3", "state-enumeration", enum_call(pe) == enum_call(pn) and enum_call(pe) != "", pe.loc(), "both enumerate enumerate_valid_expansion_states(flat_graph, expandable_nodes)" if enum_call(pe) == enum_call(pn) and enum_call(pe) else "nodes and edges are pre-computed for different sets of states")
+    rep.add("C20.R3", "state-enumeration", enum_call(pe) == enum_call(pn) and enum_call(pe) != "", pe.loc(), "both enumerate enumerate_valid_expansion_states(flat_graph, get_expandable_nodes(flat_graph))" if enum_call(pe) == enum_call(pn) and enum_call(pe) else "nodes and edges are pre-computed for different sets of states")
     rg = db.func("viz.renderer.render_graph")
     init_keys = {_skeleton(n) for n in walk_local(rg.node) if isinstance(n, ast.JoinedStr) and "|" in (_skeleton(n) or "")} | {_skeleton(n) for n in walk_local(rg.node) if isinstance(n, ast.Constant) and isinstance(n.value, str) and n.value.startswith("sep:")}
     ok = "{}|{}" in init_keys and {"sep:0", "sep:1"} <= init_keys
@@ -205,7 +208,9 @@ def run(ctx) -> None:
         ok = isinstance(kw.get("parent"), ast.Name) and kw["parent"].id == idvar
         g = enclosing(recs[0], (ast.If,))
         ok = ok and g is not None and "is not None" in src(g.test)
-        parent_attr = any(isinstance(n, ast.Assign) and src(n.targets[0]) == "attrs['parent']" and src(n.value) == "parent" for n in walk_local(fl.node))
+        from sa.pattern import solve
+
+        parent_attr = bool(solve(["_A['parent'] = parent", "G.add_node(_ID, **_A)"], fl.node))
         ok = ok and parent_attr
     rep.add("C20.R4", f"{fl.qname}", ok, fl.loc(), "each node is added once under its hierarchical id with its parent link; recursion descends into nested graphs with that id as parent" if ok else "flattening does not add each nested node once with id/parent link, or recurses with the wrong parent")
     tf = db.func("graph.core.Graph.to_flat_graph")
